@@ -36,7 +36,7 @@ Definition d_s18 : dstm :=
          (mk_sft 8 [("packet_size"%string, FInt false 32 8); ("content_size"%string, FInt false 32 8)])
          None None [mk_ert 0 None (Some (mk_sft 1 [("a"%string, FInt false 48 8)]))] false 64.
 Definition h_s18 : list call := [COpen; CTrace 0 [VArr [VInt 1]]; CTrace 0 [VArr [VInt 2]]].
-Definition o_s18 : list ans := [default_ans; mk_ans false None (Some 13) 1; default_ans; default_ans].
+Definition o_s18 : list ans := [default_ans; mk_ans false None (Some 13) 1 false; default_ans; default_ans].
 Lemma s18_witness :
   (let w := run d_s18 16 [] o_s18 h_s18 in w_err w && has_err 2 (w_log w)) = true
   /\ w_err (run d_s18 16 [] [] h_s18) = false.
